@@ -10,6 +10,7 @@ package main
 
 import (
 	"fmt"
+	"golang.org/x/tools/go/ssa"
 	"math/big"
 	"sort"
 	"strings"
@@ -350,6 +351,17 @@ func (le *linEval) Eval(t *Term) *Poly {
 			}
 			if m == "Neg" && len(t.Args) == 1 {
 				return le.Eval(t.Args[0]).Neg()
+			}
+		}
+	}
+	// an otherwise opaque call of a straight-line repository helper (one basic block, one result) is
+	// evaluated through its body with the caller's arguments: `shareOf(net, amount, total)` has the normal
+	// form of its return expression. Atomise hooks ran first, so a rule that names a call keeps its atom.
+	if strings.HasPrefix(op, "call:") && curProg != nil && le.depth < 30 {
+		if fn := curProg.Func(strings.TrimPrefix(op, "call:")); fn != nil && len(fn.Blocks) == 1 && fn.Signature.Results().Len() == 1 {
+			if ret, ok := fn.Blocks[0].Instrs[len(fn.Blocks[0].Instrs)-1].(*ssa.Return); ok && len(ret.Results) == 1 {
+				body := NewTermer().Of(ret.Results[0])
+				return le.Eval(substParams(body, t.Args))
 			}
 		}
 	}
